@@ -36,6 +36,8 @@ import (
 	"sort"
 	"strconv"
 	"strings"
+	"time"
+	"verifharness/internal/pool"
 
 	"verifharness/internal/extract"
 	"verifharness/internal/gen"
@@ -441,7 +443,7 @@ func (s *c20State) modelTie() (int, int) {
 // path6: every path of length ≤ n over the seven elements.
 func (s *c20State) paths(maxLen int) (int, int) {
 	c := s.c
-	elems := []string{"n61", "n62", "i0", "i1", "i9007199254740992", "i9007199254740993", "i-1"}
+	elems := []string{"n61", "n62", "n37", "i0", "i1", "i9007199254740992", "i9007199254740993", "i-1"} // n37 = the NAME "7"
 	var all []string
 	var rec func(prefix []string, n int)
 	rec = func(prefix []string, n int) {
@@ -458,7 +460,7 @@ func (s *c20State) paths(maxLen int) (int, int) {
 		}
 	}
 	rec(nil, maxLen)
-	extra := []string{"i9223372036854775807", "i-9223372036854775808", "i-9007199254740993", "i9007199254740995", "i18014398509481985", "n", "nff", "n2e,n5b305d", "i4503599627370497"}
+	extra := []string{"n30", "n2d33", "n303037", "n316533", "n2b31", "n31,i1,n31", "n6e756c6c", "n74727565", "n312e30", "i9223372036854775807", "i-9223372036854775808", "i-9007199254740993", "i9007199254740995", "i18014398509481985", "n", "nff", "n2e,n5b305d", "i4503599627370497"}
 	all = append(all, extra...)
 	var dreq []string
 	for _, p := range all {
@@ -711,6 +713,9 @@ func checkC20(c *Ctx) {
 		s.run(reqs, ctxs)
 	}
 
+	// 4b. the rule registry API (AddRule / ReplaceRule / RemoveRule change a global): run in a pool of its own
+	s.ruleRegistry(schemas)
+
 	// 5b. the two guards of Validate and the path decoder's own error
 	{
 		reqs := []string{"evalnil schema", "evalnil doc"}
@@ -826,4 +831,76 @@ func init() {
 			c.Report(f.kind, k, f.what, f.replay)
 		}
 	}
+}
+
+// ruleRegistry: after ReplaceRule / AddRule / RemoveRule every validation error still names the rule
+// that produced it, and the change has exactly the documented effect on the error list.
+func (s *c20State) ruleRegistry(schemas []*gen.Schema) {
+	c := s.c
+	self, _ := os.Executable()
+	p := pool.New([]string{self, "-worker"}, 2, 30*time.Second)
+	type sc struct {
+		scenario, rule, sdl, doc string
+	}
+	var cases []sc
+	var reqs, base []string
+	variants := gen.DocFaultVariants()
+	for i := 0; i < c.Pick(400, 4000); i++ {
+		r := c.R.Fork(uint64(31_000_000 + i))
+		sch := schemas[i%len(schemas)]
+		v := variants[i%len(variants)]
+		f, ok := gen.InjectDocFaultVariant(r, sch, 1+r.Intn(6), v)
+		if !ok {
+			continue
+		}
+		rule := strings.SplitN(v, "/", 2)[0]
+		if _, ok := impl.RuleByName[rule]; !ok {
+			rule = impl.DefaultRuleNames[i%len(impl.DefaultRuleNames)]
+		}
+		scen := []string{"replace", "replace-new", "add", "remove"}[i%4]
+		cases = append(cases, sc{scen, rule, sch.SDL(), f.Doc})
+		reqs = append(reqs, "erules "+scen+" "+rule+" q.graphql "+impl.HexW([]byte(sch.SDL()))+" "+impl.HexW([]byte(f.Doc)))
+		base = append(base, "eval q.graphql "+impl.HexW([]byte(sch.SDL()))+" "+impl.HexW([]byte(f.Doc)))
+	}
+	out := p.Map(reqs)
+	ref := c.Worker.Map(base)
+	key := func(r errRecord, rule string) string { return rule + "\x00" + r.msg + "\x00" + r.locs }
+	for i, cs := range cases {
+		got, bad := parseErrReply(out[i])
+		want, bad2 := parseErrReply(ref[i])
+		rep := map[string]any{"op": "erules", "request": reqs[i], "schema": cs.sdl, "document": cs.doc}
+		if (bad != "OK" && bad != "ERR") || (bad2 != "OK" && bad2 != "ERR") {
+			s.keep("runtime", "rule-registry-crash", fmt.Sprintf("%s: %s / %s", clip(reqs[i], 80), clip(out[i], 200), clip(ref[i], 200)), cs.doc, rep)
+			continue
+		}
+		c.Ev.Case("erules "+cs.scenario+" "+cs.rule+clip(out[i], 60), len(got) > 0)
+		s.judge(got, judgeCtx{entry: "validate-after-" + cs.scenario, names: []string{"q.graphql"}, otherNames: []string{"s0", "prelude.graphql"}, limit: -1, validation: true, input: cs.doc, replay: rep})
+		exp := map[string]int{}
+		for _, r := range want {
+			switch cs.scenario {
+			case "remove":
+				if r.rule != cs.rule {
+					exp[key(r, r.rule)]++
+				}
+			case "add", "replace-new":
+				exp[key(r, r.rule)]++
+				if r.rule == cs.rule {
+					exp[key(r, map[string]string{"add": "ZZAdded", "replace-new": "ZZNew"}[cs.scenario])]++
+				}
+			default:
+				exp[key(r, r.rule)]++
+			}
+		}
+		for _, r := range got {
+			exp[key(r, r.rule)]--
+		}
+		for k, n := range exp {
+			if n != 0 {
+				f := strings.Split(k, "\x00")
+				s.keep("spec", "rule-registry-effect:"+cs.scenario, fmt.Sprintf("after %s(%s) validating %q: error %q of rule %q appears %+d times compared with what the documented effect on the default rule set gives", cs.scenario, cs.rule, clip(cs.doc, 200), f[1], f[0], -n), cs.doc, rep)
+				break
+			}
+		}
+	}
+	c.Ev.Count("rule-registry-scenarios", len(cases))
 }
